@@ -42,6 +42,7 @@ theorem hsem_noemit : ∀ (fuel : Nat) (op : Host) (nh na : Nat) (s s' : HSt), e
       simp only [emits] at he
       simp only [hsem] at h
       exact ih body nh na s s' he h
+    | epr evs => simp [hsem] at h
 
 /-- `s'` keeps every handle below `nh` that is defined in `s` -/
 def Keeps (nh : Nat) (s s' : HSt) : Prop := ∀ h, h < nh → (s.hregs h).isSome → (s'.hregs h).isSome
@@ -225,5 +226,6 @@ theorem hsem_keeps : ∀ (fuel : Nat) (op : Host) (nh na : Nat) (s s' : HSt),
     | tryUntil n body =>
       simp only [hsem] at h
       exact ih body nh na s s' h
+    | epr evs => simp [hsem] at h
 
 end NQ.Sdk
